@@ -6,6 +6,12 @@
 // order) or an arbitrary table of distinct byte strings written into the trace as (names ...); the
 // driver then runs the model on the RANKS of the names in plain byte order.
 // Large graphs (scale.go) use run-length encoded bulk operations (addnodes / addedges / rmedges).
+//
+// Several graphs (copy.go): a case has four graph slots 0..3, all starting as NewGraph().  (at g <op>)
+// applies <op> to slot g, a bare operation is on slot 0; (copy s d) is slots[d] = slots[s].Copy();
+// (sortd) is Toposort on the graph ITSELF (consuming it), where (sort) sorts copies.  A wrapper rather than
+// a "current graph" switch, so that removing any operation while shrinking never changes the meaning of
+// the others.
 package main
 
 import (
@@ -22,6 +28,19 @@ type op struct {
 	kind string
 	a, b int
 	x    []int // parameters of a bulk operation
+	g    int   // graph slot the operation is applied to (copy: a = source slot, b = target slot)
+}
+
+const nSlots = 4
+
+// at puts operations onto a graph slot
+func at(g int, ops ...op) []op {
+	res := make([]op, len(ops))
+	for i, o := range ops {
+		o.g = g
+		res[i] = o
+	}
+	return res
 }
 
 func isBulk(kind string) bool {
@@ -29,10 +48,15 @@ func isBulk(kind string) bool {
 }
 
 func (o op) sx() Sx {
+	if o.g != 0 && o.kind != "copy" {
+		inner := o
+		inner.g = 0
+		return T("at", I(o.g), inner.sx())
+	}
 	switch o.kind {
-	case "addedge", "rmedge":
+	case "addedge", "rmedge", "copy":
 		return T(o.kind, I(o.a), I(o.b))
-	case "sort":
+	case "sort", "sortd":
 		return T(o.kind)
 	case "addnodes", "addedges", "rmedges", "reindexes":
 		xs := make([]Sx, len(o.x))
@@ -48,6 +72,15 @@ func (o op) sx() Sx {
 func parseOp(s Sx) op {
 	o := op{kind: s.Tag()}
 	args := s.Args()
+	if o.kind == "at" {
+		g := args[0].Int()
+		o = parseOp(args[1])
+		if g < 0 || g >= nSlots || o.kind == "copy" || o.g != 0 {
+			panic("malformed (at g op): " + s.String())
+		}
+		o.g = g
+		return o
+	}
 	if isBulk(o.kind) {
 		for _, a := range args {
 			o.x = append(o.x, a.Int())
@@ -59,6 +92,9 @@ func parseOp(s Sx) op {
 	}
 	if len(args) > 1 {
 		o.b = args[1].Int()
+	}
+	if o.kind == "copy" && (o.a < 0 || o.a >= nSlots || o.b < 0 || o.b >= nSlots) {
+		panic("graph slot out of range: " + s.String())
 	}
 	return o
 }
@@ -117,6 +153,14 @@ func apply(g *verifapi.Graph, nm *namer, o op) (Sx, bool) {
 	case "reindex":
 		g.ReindexNode(nm.of(o.a))
 		return T("u"), true
+	case "sortd":
+		// Toposort on the graph itself: it deletes the edges it walks
+		var l []string
+		var ok bool
+		if _, p := Catch(func() { l, ok = g.Toposort() }); p {
+			return T("panic"), true
+		}
+		return T("sorted", B(ok), Ints(nm.uns(l))), true
 	case "addnodes":
 		from, count, step, mod := o.x[0], o.x[1], o.x[2], o.x[3]
 		agg := 0
@@ -149,7 +193,10 @@ func apply(g *verifapi.Graph, nm *namer, o op) (Sx, bool) {
 }
 
 func runCase(nm *namer, ops []op) (obs []Sx) {
-	g := verifapi.NewGraph()
+	var gs [nSlots]*verifapi.Graph
+	for i := range gs {
+		gs[i] = verifapi.NewGraph()
+	}
 	// repetitions of every Sort: 5 copies + 3 rebuilt graphs; 3 copies + 1 rebuilt graph for the very large cases
 	copies, rebuilds, size := 4, 3, 0
 	for _, o := range ops {
@@ -163,11 +210,25 @@ func runCase(nm *namer, ops []op) (obs []Sx) {
 	if size > 15000 {
 		copies, rebuilds = 2, 1
 	}
-	var prefix []op // the mutating operations so far
+	// per slot: the mutating operations that produced the graph (a copy inherits the history of its source;
+	// a destructive sort is part of the history and is replayed as one)
+	var prefix [nSlots][]op
 	for _, o := range ops {
+		if o.kind == "copy" {
+			var cl *verifapi.Graph
+			if _, p := Catch(func() { cl = gs[o.a].Copy() }); p {
+				obs = append(obs, T("panic"))
+				continue
+			}
+			gs[o.b] = cl
+			prefix[o.b] = append([]op(nil), prefix[o.a]...)
+			obs = append(obs, T("u"))
+			continue
+		}
+		g := gs[o.g]
 		if r, ok := apply(g, nm, o); ok {
 			obs = append(obs, r)
-			prefix = append(prefix, o)
+			prefix[o.g] = append(prefix[o.g], o)
 			continue
 		}
 		switch o.kind {
@@ -188,7 +249,7 @@ func runCase(nm *namer, ops []op) (obs []Sx) {
 			// (AddEdge / ReindexNode iterate maps too) and sort again
 			for k := 0; k < rebuilds && res.Tag() != "nondet"; k++ {
 				g2 := verifapi.NewGraph()
-				for _, p := range prefix {
+				for _, p := range prefix[o.g] {
 					apply(g2, nm, p)
 				}
 				again := sortOnCopy(g2, nm)
@@ -541,6 +602,18 @@ func main() {
 		emit(c, "names", nm, ops)
 	}
 	phase("names")
+	// Copy as an operation: several live graphs, copy, mutate either side, query both (copy.go)
+	copyExhaustive(c, 0, true) // the copy of the EMPTY graph
+	copyExhaustive(c, 1, true)
+	copyExhaustive(c, 2, true)
+	copyExhaustive(c, 3, c.Thorough())
+	copyChains(c, 3, c.Count(4, 40))
+	phase("copyex")
+	for i := c.Count(2000, 60000); i > 0; i-- {
+		kind, ops, n := copyRandom(c)
+		emit(c, kind, pick(n), ops)
+	}
+	phase("copyrnd")
 	if c.Tier != "search" {
 		scale(c)
 	}
